@@ -37,7 +37,9 @@ def firstRaised : List (Out V) → Option ObjErr
 
 theorem isData_empty : IsData (.dict [] []) := ⟨rfl, rfl⟩
 
-/-- **simulation of whole runs**: for EVERY sequence of operations (data values set are not `None`), every state and every
+/-- **simulation of whole runs**: for EVERY sequence of operations satisfying the explicit side condition `hops` — every data
+value SET is a data value (`OpOk (.setData d) = IsData d`: not `None`, which through the setter would leave a state outside
+`Wf`: `step c x (.setData .none)` has `data = some .none`) —, every well-formed state and every
 codec of the kind, the translated methods run in sequence raise exactly the model's first exception, and if the model's
 run raises nothing they return the model's outcomes and leave the instance in the model's final state. -/
 theorem Frame_run_sim (env : PyT.Env) (c : FrameCodec V) (err) {cls : Nat} (he : EnvCodec env c err cls) (h : V)
